@@ -552,6 +552,15 @@ func runC20(r *rep.R) {
 		}
 		do(c20Case{Prim: "ravg_d2b", A: s})
 	}
+	// far beyond the representable range: whole days up to ten years, and the
+	// largest durations a time.Duration holds - all saturate at 63 days
+	for days := int64(60); days <= 3660; days++ {
+		do(c20Case{Prim: "ravg_d2b", A: days * 86400})
+		do(c20Case{Prim: "ravg_d2b", A: days*86400 + 86399})
+	}
+	for _, sec := range []int64{36500 * 86400, 1 << 32, 9223372035, 9223372036} {
+		do(c20Case{Prim: "ravg_d2b", A: sec})
+	}
 	if step > 1 {
 		r.Note("quick tier: rolling-average durations enumerated second-by-second up to 2 days, then around every day boundary and every 61 s; thorough enumerates every whole second up to 65 days")
 	}
